@@ -19,6 +19,7 @@ type refCfg struct {
 	auth        bool   // client certificate requested (and sent by the client)
 	tls         bool   // standard TLS path (RSA key exchange) instead of GMSSL
 	ver         uint16 // TLS version when tls is set (0 = TLS 1.2)
+	auto        bool   // library server in GMSSL/TLS auto-switch mode (GMSSL reference client)
 }
 
 func (r refCfg) version() uint16 {
@@ -35,6 +36,9 @@ func (r refCfg) String() string {
 	}
 	if r.tls {
 		role = fmt.Sprintf("tls%04x/", r.version()) + role
+	}
+	if r.auto {
+		role = "auto-switch/" + role
 	}
 	return fmt.Sprintf("%s/%04x/client-auth=%v", role, r.suite, r.auth)
 }
@@ -96,6 +100,14 @@ func (r refCfg) libConfig() *gmtls.Config {
 		return c
 	}
 	s := &gmtls.Config{GMSupport: &gmtls.GMSupport{}, Certificates: []gmtls.Certificate{p.Sign, p.Enc}, Time: tlsk.FixedTime, Rand: wire.NewRand(22), CipherSuites: []uint16{r.suite}}
+	if r.auto {
+		a, err := gmtls.NewBasicAutoSwitchConfig(&p.Sign, &p.Enc, &p.ECDSA)
+		if err != nil {
+			panic(err)
+		}
+		a.Time, a.Rand = tlsk.FixedTime, wire.NewRand(22)
+		s = a
+	}
 	if r.auth {
 		s.ClientAuth, s.ClientCAs = gmtls.RequireAndVerifyClientCert, p.Roots
 	}
@@ -537,9 +549,9 @@ func refUnits() []harness.Unit {
 		for _, suite := range []uint16{gmtls.GMTLS_ECC_SM4_CBC_SM3, gmtls.GMTLS_ECC_SM4_GCM_SM3} {
 			for _, auth := range []bool{false, true} {
 				for f := 0; f < 2; f++ {
-					u = append(u, refSequenceUnit(refCfg{lc, suite, auth, false, 0}, f))
+					u = append(u, refSequenceUnit(refCfg{lc, suite, auth, false, 0, false}, f))
 				}
-				u = append(u, refMalformedUnit(refCfg{lc, suite, auth, false, 0}), refStraddleUnit(refCfg{lc, suite, auth, false, 0}))
+				u = append(u, refMalformedUnit(refCfg{lc, suite, auth, false, 0, false}), refStraddleUnit(refCfg{lc, suite, auth, false, 0, false}))
 			}
 		}
 	}
@@ -547,18 +559,25 @@ func refUnits() []harness.Unit {
 	for _, lc := range []bool{true, false} {
 		for _, suite := range []uint16{gmref.SuiteAESCBC, gmref.SuiteAESGCM} {
 			for _, auth := range []bool{false, true} {
-				r := refCfg{lc, suite, auth, true, 0}
+				r := refCfg{lc, suite, auth, true, 0, false}
 				u = append(u, refSequenceUnit(r, 0), refSequenceUnit(r, 1), refMalformedUnit(r), refStraddleUnit(r))
 			}
 		}
 		for _, v := range []uint16{0x0301, 0x0302} {
 			for _, auth := range []bool{false, true} {
-				r := refCfg{lc, gmref.SuiteAESCBC, auth, true, v}
+				r := refCfg{lc, gmref.SuiteAESCBC, auth, true, v, false}
 				u = append(u, refSequenceUnit(r, 0), refSequenceUnit(r, 1), refMalformedUnit(r), refStraddleUnit(r))
 			}
 		}
 	}
 	u = append(u, refUnofferedSuiteUnit())
+	// the auto-switch server has its own ClientHello processing in front of the GMSSL handshake
+	for _, suite := range []uint16{gmtls.GMTLS_ECC_SM4_CBC_SM3, gmtls.GMTLS_ECC_SM4_GCM_SM3} {
+		for _, auth := range []bool{false, true} {
+			r := refCfg{false, suite, auth, false, 0, true}
+			u = append(u, refSequenceUnit(r, 0), refSequenceUnit(r, 1), refMalformedUnit(r))
+		}
+	}
 	return u
 }
 
